@@ -599,7 +599,7 @@ def tie_expr_contexts(ctx):
     base_ok = {}
     for k, f, w, b in EXPR_CLAUSES:
         if ctx.quick and (k, f) != ("Call", "keywords"):
-            cs = ["assign", "list-filter"] + rng.sample(names, 2)
+            cs = ["list-filter"] + rng.sample(names, 2)
         else:
             cs = names
         for c in dict.fromkeys(cs):
@@ -623,6 +623,102 @@ def tie_expr_contexts(ctx):
                 ctx.violation(key, f"{k}.{f} in position `{c}`: the compiler crashes ({wd}) on\n{wb}", rep)
             if m in ("rejected", "nodeRejected", "unreachable") and real not in ("rejected", "pysyntax"):
                 ctx.broke(f"static table says {k}.{f} is {m} but in position `{c}` the real compiler gives `{real}` on `{w}`")
+
+
+# ---------------------------------------------------------------------- jump statements inside blocks
+# return / break / continue at every nesting (directly, under if / else, inside a for / while loop, inside a nested
+# with-block, inside a nested function) within modifier blocks and nested functions.  Oracle: a jump that would leave
+# the block (its target — the function for `return`, the loop for `break` / `continue` — lies outside the block)
+# cannot be given Python's meaning and must be REJECTED; a jump whose target lies inside the block is legal: the
+# program must be ACCEPTED and the jump must take effect (lowered Hugr differs from the same program with `pass`).
+JUMP_WRAPS = {
+    # name: (template with @ for the jump, provides an inner loop?, provides an inner function?)
+    "direct": ("h(q)\n@", False, False),
+    "under-if": ("if b:\n    @\nh(q)", False, False),
+    "under-else": ("if b:\n    h(q)\nelse:\n    @", False, False),
+    "in-for": ("for i in range(n):\n    h(q)\n    @\n    h(q)", True, False),
+    "in-for-under-if": ("for i in range(n):\n    if i == 2:\n        @\n    h(q)", True, False),
+    "in-while": ("i = 0\nwhile i < n:\n    i += 1\n    @\n    h(q)", True, False),
+    "in-while-in-for-under-if": ("for i in range(n):\n    j = 0\n    while j < i:\n        j += 1\n        if b:\n            @\n    h(q)", True, False),
+    "after-loop": ("for i in range(n):\n    h(q)\n@", False, False),
+    "in-nested-with": ("with dagger:\n    h(q)\n    @", False, False),
+    "in-loop-in-nested-with": ("with control(c):\n    for i in range(n):\n        @\n        h(q)", True, False),
+    "in-nested-def": ("def inner(k: int) -> None:\n    @\n    k2 = k + 1\ninner(n)", False, True),
+    "in-loop-in-nested-def": ("def inner(k: int) -> None:\n    for i in range(k):\n        @\n        k2 = k + i\ninner(n)", True, True),
+}
+JUMP_HOSTS = {
+    "with-control": "with control(c):\n@",
+    "with-power": "with power(2):\n@",
+    "with-dagger": "with dagger:\n@",
+    "with-two-items": "with control(c), dagger:\n@",
+}
+JUMP_PRELUDE = "from guppylang.std.quantum import qubit, h, discard\npower = dagger = control = 0\n"
+
+
+def _jump_compile(body):
+    import feed
+
+    src = feed.PRELUDE + JUMP_PRELUDE + "@guppy\ndef f(q: qubit, c: qubit, n: int, b: bool) -> None:\n" + _ind(body) + "\n"
+    try:
+        m = feed.load(src, prelude="")
+    except SyntaxError as e:
+        return "pysyntax", str(e)[:60]
+    try:
+        o, e = feed.check_outcome(m.f)
+        if o != "ok":
+            return ("rejected" if o == "user" else "crash"), feed.err_class(e)
+        try:
+            return "ok", _canon(feed.lower(m.f))
+        except BaseException as e:  # noqa: BLE001
+            return "crash", "lower:" + type(e).__name__ + ":" + str(e)[:80]
+    finally:
+        feed.unload(m)
+
+
+def jump_cases():
+    cases = []
+    for hname, host in JUMP_HOSTS.items():
+        for wname, (tmpl, inner_loop, inner_def) in JUMP_WRAPS.items():
+            for jump in ("return", "break", "continue"):
+                if jump == "return":
+                    escapes = not inner_def
+                    outer = "{}"
+                else:
+                    escapes = not inner_loop
+                    outer = "for _o in range(n):\n{}"      # a loop outside the block for break / continue to aim at
+                def build(j):
+                    inner = tmpl.replace("@", j)
+                    blk = host.replace("@", _ind(inner))
+                    return outer.format(_ind(blk)) if outer != "{}" else blk
+                cases.append((hname, wname, jump, escapes, build(jump), build("pass")))
+    return cases
+
+
+def tie_jumps(ctx):
+    for hname, wname, jump, escapes, body, base in jump_cases():
+        if ctx.quick and hname not in ("with-control", "with-power"):
+            continue
+        r, d = _jump_compile(body)
+        key = f"jump:{hname}:{wname}:{jump}"
+        rep = {"host": hname, "wrap": wname, "jump": jump, "escapes_block": escapes, "with": body, "base": base, "real": r, "detail": d if r != "ok" else ""}
+        if r == "crash":
+            ctx.count(["jump", hname, wname, jump], nontrivial=True, kind="jump:crash")
+            ctx.violation(key, f"`{jump}` ({wname}) inside `{hname}`: the compiler crashes ({d}) on\n{body}", rep)
+            continue
+        if escapes:
+            ctx.count(["jump", hname, wname, jump], nontrivial=True, kind=f"jump:escaping:{r}")
+            if r == "ok":
+                ctx.violation(key, f"`{jump}` ({wname}) would leave the `{hname}` block, which cannot behave as in Python, but the program is accepted:\n{body}", rep)
+        else:
+            if r == "ok":
+                rb, db = _jump_compile(base)
+                same = rb == "ok" and db == d
+                ctx.count(["jump", hname, wname, jump], nontrivial=True, kind="jump:inner:" + ("same" if same else "differs"))
+                if same:
+                    ctx.violation(key, f"`{jump}` ({wname}) inside `{hname}` is accepted but has no effect (same Hugr as with `pass`):\n{body}", rep)
+            else:
+                # a legal program rejected is not a C32 failure (nothing is dropped); recorded in the distribution
+                ctx.count(["jump", hname, wname, jump], nontrivial=False, kind=f"jump:inner:{r}:{d}")
 
 
 def tie(ctx):
@@ -677,6 +773,7 @@ def tie(ctx):
         ctx._c32_mr_done = True
         tie_must_reject(ctx)
         tie_expr_contexts(ctx)
+        tie_jumps(ctx)
 
 
 def search(ctx, why):
